@@ -36,6 +36,7 @@ func alphabet() [][]string {
 		a = append(a, []string{"SELECT", x})
 	}
 	a = append(a, []string{"select", "1", "2"}, []string{"SELECT"},
+		[]string{"@reconnect"},
 		[]string{"SET", "k", "@"}, []string{"GET", "k"}, []string{"DEL", "k"}, []string{"KEYS", "*"}, []string{"EXISTS", "k"}, []string{"APPEND", "k", "x"})
 	return a
 }
@@ -49,6 +50,10 @@ type cfg struct {
 type mstate struct {
 	dbs []*model.KS
 	sel []int
+	// ghost: what the connection slots had selected when their previous client disconnected. The
+	// model does not depend on it, but an implementation that recycles per-connection state does, so
+	// it is part of the state key (states that differ only here must not be merged).
+	ghost []string
 }
 
 func newM(c cfg) *mstate {
@@ -65,7 +70,7 @@ func (m *mstate) key(budget []int) uint64 {
 	for i, d := range m.dbs {
 		fmt.Fprintf(hs, "db%d:%s|", i, model.CanonString(d.Canon()))
 	}
-	fmt.Fprintf(hs, "sel%v|b%v", m.sel, budget)
+	fmt.Fprintf(hs, "sel%v|b%v|g%v", m.sel, budget, m.ghost)
 	return hs.Sum64()
 }
 
@@ -73,6 +78,7 @@ type inst struct {
 	mgr    *server.Manager
 	conns  []*h.Conn
 	cancel context.CancelFunc
+	ctx    context.Context
 }
 
 func newInst(c cfg) *inst {
@@ -80,12 +86,19 @@ func newInst(c cfg) *inst {
 	x := &inst{mgr: h.NewManager()}
 	ctx, cancel := context.WithCancel(context.Background())
 	x.cancel = cancel
+	x.ctx = ctx
 	for i := 0; i < c.Conns; i++ {
 		cn := h.NewConn(fmt.Sprintf("c%d", i))
 		x.conns = append(x.conns, cn)
 		go x.mgr.Handle(ctx, cn)
 	}
 	return x
+}
+
+func (x *inst) reconnect(i int) {
+	cn := h.NewConn(fmt.Sprintf("c%d'", i))
+	x.conns[i] = cn
+	go x.mgr.Handle(x.ctx, cn)
 }
 
 func (x *inst) close() {
@@ -202,6 +215,22 @@ func run(c cfg, path []event, al [][]string, record func(v viol)) (*mstate, []in
 	}
 	for i, e := range path {
 		a := args(c, e, al)
+		if string(a[0]) == "@reconnect" {
+			// the client disconnects and a new client connects in its place: it starts in database 0
+			old := x.conns[e.Conn]
+			old.EOF()
+			if !old.WaitClosed(10 * time.Second) {
+				if record != nil && i == len(path)-1 {
+					record(viol{Kind: "hang", Cmd: "disconnect", Shape: fmt.Sprintf("dbs=%d", c.Databases), Detail: pathString(c, path, al) + ": the handler did not finish after the client closed", Path: path})
+				}
+				return nil, nil, false
+			}
+			x.reconnect(e.Conn)
+			m.ghost = append(m.ghost, fmt.Sprintf("c%d:%d", e.Conn, m.sel[e.Conn]))
+			m.sel[e.Conn] = 0
+			budget[e.Conn]--
+			continue
+		}
 		x.conns[e.Conn].Send(model.EncodeCommand(a))
 		_, v, st := x.conns[e.Conn].TakeReply(10 * time.Second)
 		budget[e.Conn]--
@@ -235,7 +264,7 @@ func run(c cfg, path []event, al [][]string, record func(v viol)) (*mstate, []in
 			if diff := model.DiffCanon(m.dbs[i].Canon(), h.CanonOf(d), 1000); diff != "" {
 				last := path[len(path)-1]
 				a := args(c, last, al)
-				record(viol{Kind: "state-mismatch", Cmd: strings.ToLower(string(a[0])), Shape: fmt.Sprintf("dbs=%d,%s", c.Databases, shapeArg(a, c)),
+				record(viol{Kind: "state-mismatch", Cmd: strings.ToLower(strings.TrimPrefix(string(a[0]), "@")), Shape: fmt.Sprintf("dbs=%d,%s", c.Databases, shapeArg(a, c)),
 					Detail: fmt.Sprintf("%s: database %d differs: %s", pathString(c, path, al), i, diff), Path: path})
 				return nil, nil, false
 			}
